@@ -28,3 +28,48 @@ MUTANTS = [
     dict(id='c13-symmetric-offbyone', props=['C13'], file=EXT,
          old='        return result[:-1], abserr[1:]', new='        return result[:-1], abserr[:-1]'),
 ]
+
+MUTANTS += [
+    dict(id='c15-update-order', props=['C15', 'C16'], file=FB,
+         old='        c_2, c_5, c_4 = 1, c_4, x[i] - x0', new='        c_2, c_4, c_5 = 1, x[i] - x0, c_4'),
+    dict(id='c15-min-i-n-minus-1', props=['C15', 'C16'], file=FB,
+         old='        j = np.arange(0, min(i, n) + 1)', new='        j = np.arange(0, min(i, max(n - 1, 0)) + 1)'),
+    dict(id='c15-no-transpose-row', props=['C15'], file=FB,
+         old='    return fd_weights_all(x, x0, n)[-1]', new='    return fd_weights_all(x, x0, n)[n - 1 if n > 3 else n]'),
+    dict(id='c15-last-node-sign', props=['C15', 'C16'], file=FB,
+         old='        weights[i, j] = c_1 * (c_6 - c_5 * c_7) / c_2', new='        weights[i, j] = c_1 * (c_6 - c_5 * c_7) / c_2 * (1 + 1e-9 * (i == 7))'),
+]
+
+MUTANTS += [
+    dict(id='c07-rule-not-reversed', props=['C07'], file=EXT,
+         old='new_sequence = convolve(sequence, rule[::-1], axis=0, origin=n_r // 2)',
+         new='new_sequence = convolve(sequence, rule, axis=0, origin=n_r // 2)'),
+    dict(id='c07-origin-shift', props=['C07'], file=EXT,
+         old='new_sequence = convolve(sequence, rule[::-1], axis=0, origin=n_r // 2)',
+         new='new_sequence = convolve(sequence, rule[::-1], axis=0, origin=(n_r + 1) // 2)'),
+    dict(id='c07-rmatrix-order-plus-one', props=['C07'], file=EXT,
+         old='(1.0 / step_ratio) ** (i * (step * j + order))',
+         new='(1.0 / step_ratio) ** (i * (step * j + order + (order > 6)))'),
+    dict(id='c07-convolve-drops-imag', props=['C07'], file=EXT,
+         old="return convolve1d(seq.real, rule, **kwds) + 1j * convolve1d(seq.imag, rule, **kwds)",
+         new="return convolve1d(seq.real, rule.real, **kwds) + 1j * convolve1d(seq.imag, rule.real, **kwds)"),
+    dict(id='c07-short-seq-terms', props=['C07'], file=EXT,
+         old='        num_terms = min(self.num_terms, sequence_length - 1)',
+         new='        num_terms = min(self.num_terms, max(sequence_length - 2, 0)) if sequence_length < 3 else min(self.num_terms, sequence_length - 1)'),
+    dict(id='c07-abserr-sign', props=['C07'], file=EXT,
+         old="        err = np.abs(np.diff(new_sequence, axis=0)) * fact\n",
+         new="        err = np.diff(np.abs(new_sequence), axis=0) * fact\n"),
+]
+
+MUTANTS += [
+    dict(id='c16-interior-window-short', props=['C16'], file=FB,
+         old="        du[i] = np.dot(fd_weights(x[i - mm:i + mm + 1], x0=x[i], n=n),\n                       fx[i - mm:i + mm + 1])",
+         new="        du[i] = np.dot(fd_weights(x[i - mm:i + mm], x0=x[i], n=n),\n                       fx[i - mm:i + mm])"),
+    dict(id='c16-right-boundary-x0', props=['C16'], file=FB,
+         old="du[-i - 1] = np.dot(fd_weights(x[-size:], x0=x[-i - 1], n=n), fx[-size:])",
+         new="du[-i - 1] = np.dot(fd_weights(x[-size:], x0=x[-i - 1] if i else x[-1] * (1 + 1e-9), n=n), fx[-size:])"),
+    dict(id='c16-boundary-size', props=['C16'], file=FB,
+         old="    size = 2 * mm + 2  # stencil size at boundary", new="    size = 2 * mm  # stencil size at boundary"),
+    dict(id='c16-last-interior-skipped', props=['C16'], file=FB,
+         old="    for i in range(mm, num_x - mm):", new="    for i in range(mm, num_x - mm - 1):"),
+]
